@@ -168,6 +168,90 @@ def field_suite(res, rng, tier):
         res.violations.append(dict(case=repr(b), observed=b["got"], what="field on_error: expected %s" % b["want"]))
 
 
+def varargs_case(i_seed):
+    """*args: T follow invalid_items, **kwargs: T and typed additions of a class follow invalid_values, each offending element
+    alone: every combination of the two policies"""
+    import utype
+    from utype.utils import exceptions as exc
+    from utype.utils.transform import type_transform
+    warnings.simplefilter("ignore")
+    rng = random.Random(i_seed)
+    pi, pv, pk = (rng.choice(["throw", "exclude", "preserve"]) for _ in range(3))
+    t = dyn.fresh("Va")
+    ty = rng.choice(["int", "int", "float", "PositiveInt"])
+    T = {"int": int, "float": float, "PositiveInt": dyn.PositiveInt}[ty]
+    vals = lambda: [rng.choice([1, "2", 3.0, "x", "q", None, [1], 0, -1, "5"]) for _ in range(rng.randint(0, 4))]
+
+    def conv(v):
+        try:
+            return ("ok", type_transform(v, T))
+        except Exception:
+            return ("bad",)
+    kind = rng.choice(["fn", "fn", "cls"])
+    opts = "Options(invalid_items=%r, invalid_values=%r, invalid_keys=%r)" % (pi, pv, pk)
+    if kind == "fn":
+        src = "@utype.parse(options=%s)\ndef %s(a: int, *rest: %s, **more: %s):\n    return (a, rest, more)\n" % (opts, t, ty, ty)
+        dyn.declare(src)
+        rest, more = vals(), {("k%d" % j): v for j, v in enumerate(vals())}
+        try:
+            got = ("ok", dyn.get(t)(1, *rest, **more))
+        except exc.ParseError:
+            got = ("parse",)
+        except Exception as e:
+            return "%s\ncall (1, *%r, **%r): a non-ParseError escaped: %r" % (src, rest, more, e)
+        want_rest, want_more, fail = [], {}, False
+        for v in rest:
+            c = conv(v)
+            if c[0] == "ok": want_rest.append(c[1])
+            elif pi == "throw": fail = True
+            elif pi == "preserve": want_rest.append(v)
+        for k, v in more.items():
+            c = conv(v)
+            if c[0] == "ok": want_more[k] = c[1]
+            elif pv == "throw": fail = True
+            elif pv == "preserve": want_more[k] = v
+        want = ("parse",) if fail else ("ok", (1, tuple(want_rest), want_more))
+        if repr(got) != repr(want):
+            return "%s\ncall (1, *%r, **%r) gives %r; element by element (items follow invalid_items, keyword extras invalid_values) it should be %r" % (src, rest, more, got, want)
+        return ("ok", got[0])
+    src = "class %s(Schema):\n    __options__ = Options(invalid_items=%r, invalid_values=%r, invalid_keys=%r, addition=%s)\n    a: int = 0\n" % (t, pi, pv, pk, ty)
+    dyn.declare(src)
+    more = {("k%d" % j): v for j, v in enumerate(vals())}
+    try:
+        r = dyn.get(t)(**more)
+        got = ("ok", {k: v for k, v in dict(r).items() if k != "a"})
+    except exc.ParseError:
+        got = ("parse",)
+    except Exception as e:
+        return "%s\ninput %r: a non-ParseError escaped: %r" % (src, more, e)
+    want_more, fail = {}, False
+    for k, v in more.items():
+        c = conv(v)
+        if c[0] == "ok": want_more[k] = c[1]
+        elif pv == "throw": fail = True
+        elif pv == "preserve": want_more[k] = v
+    want = ("parse",) if fail else ("ok", want_more)
+    if repr(got) != repr(want):
+        return "%s\ninput %r gives %r; addition by addition (they follow invalid_values) it should be %r" % (src, more, got, want)
+    return ("ok", got[0])
+
+
+def varargs_suite(res, tier, seed):
+    n = 2500 if tier == "quick" else 40000
+    outs = core.pool_map(varargs_case, [seed * 1000133 + i for i in range(n)])
+    bad = [o for o in outs if isinstance(o, str)]
+    agg = {}
+    for o in outs:
+        if isinstance(o, tuple):
+            agg[o[1]] = agg.get(o[1], 0) + 1
+    res.add_suite("varargs-additions", n, n, ["seeded: parsed functions with *rest: T, **more: T; Schema with Options(addition=T)"],
+                  "typed *args (items), **kwargs and class additions (values) under all 27 policy triples, 0-4 elements each of which is "
+                  "also converted alone: offending items are dropped / kept / fatal according to invalid_items, offending extras "
+                  "according to invalid_values, the others are converted", dict(failures=len(bad), outcomes=agg))
+    for o in bad[:3]:
+        res.violations.append(dict(case=repr(dict(kind="varargs")), observed=o, what=o))
+
+
 def main(tier, seed):
     warnings.simplefilter("ignore")
     res = core.Result(PID, tier, seed)
@@ -192,6 +276,7 @@ def main(tier, seed):
     for c, o in bad[:3]:
         res.violations.append(dict(case=repr(c), observed=o, what=o))
     field_suite(res, rng, tier)
+    varargs_suite(res, tier, seed)
     return core.finish(res, "make -C coq Props/C11.vo && coqc (Print Assumptions audit)", "see suites", search=None,
                        level_note="theorems are about the loops of Model/Parse.v (tied by the policies suite); C11_exclude_is_filter assumes "
                                   "element conversions independent of the policy (element types that are not containers with offending "
